@@ -51,7 +51,8 @@ Inductive observed :=
 | OPropose (panicked : bool) (tr : p1_trace)
 | ORelays (o : outcome (list N) unit)
 | OGraffiti (o : outcome (list (list N)) unit)
-| OConfig (steps : list (outcome unit cfg_err * list (outcome (list N) cfg_err)))
+| OConfig (steps : list (outcome unit cfg_err * list (outcome (list N) cfg_err) * outcome (list N) cfg_err))
+                                                       (* per step: decode, lookups, relays reached by the registration round *)
 | ODuties (l : list (N * outcome (list att_row) att_err))
 | OHead (o : outcome (option N) unit)
 | OErrBody (o : outcome unit unit)
@@ -63,7 +64,7 @@ Record case := { c_id : N; c_in : input; c_obs : observed }.
 (* the model's prediction, in the shape of the observation *)
 
 Fixpoint config_run (cur : option config) (steps : list (doc * list (N * N)))
-  : list (outcome unit cfg_err * list (outcome (list N) cfg_err)) :=
+  : list (outcome unit cfg_err * list (outcome (list N) cfg_err) * outcome (list N) cfg_err) :=
   match steps with
   | [] => []
   | (d, lks) :: steps' =>
@@ -73,11 +74,13 @@ Fixpoint config_run (cur : option config) (steps : list (doc * list (N * N)))
        map (fun ak => match lookup true cur' (fst ak) (snd ak) with
                       | Ok l => Ok (sort_by (fun x => x) l)
                       | o => o
-                      end) lks)
+                      end) lks,
+       registration_round cur')
       :: config_run cur' steps'
   end.
 
 Definition sorted_ids := sort_by (fun x : N => x).
+Definition id_set (l : list N) : list N := sorted_ids (dedup l []).
 
 Definition agree (c : case) : bool :=
   match c_in c, c_obs c with
@@ -87,8 +90,9 @@ Definition agree (c : case) : bool :=
   | IRelays rs, ORelays o => outcome_eqb (list_eqb N.eqb) unit_eqb o (issue_now rs)
   | IGraffiti g ps, OGraffiti o => outcome_eqb (list_eqb bytes_eqb) unit_eqb o (graffiti_now g ps)
   | IConfig steps, OConfig obs =>
-      list_eqb (prod_eqb (outcome_eqb unit_eqb cfg_err_eqb)
-                         (list_eqb (outcome_eqb (fun a b => list_eqb N.eqb (sorted_ids a) (sorted_ids b)) cfg_err_eqb)))
+      list_eqb (prod_eqb (prod_eqb (outcome_eqb unit_eqb cfg_err_eqb)
+                                   (list_eqb (outcome_eqb (fun a b => list_eqb N.eqb (sorted_ids a) (sorted_ids b)) cfg_err_eqb)))
+                         (outcome_eqb (fun a b => list_eqb N.eqb (id_set a) (id_set b)) cfg_err_eqb))
                obs (config_run None steps)
   | IDuties ds held, ODuties l =>
       list_eqb (prod_eqb N.eqb (outcome_eqb (list_eqb row_eqb) att_err_eqb)) l (attest_all_now ds held)
@@ -168,31 +172,38 @@ Definition P_graffiti (g : list N) (ps : list node_client) (o : outcome (list (l
 (* path 4 *)
 
 Definition doc_rejectable (d : doc) : bool :=
-  match d with DUnavailable | DMalformed | DVersion _ => true | _ => false end.
+  match d with DUnavailable | DMalformed | DVersion _ | DBare _ => true | _ => false end.
 
 Definition lookups_eqb := list_eqb (prod_eqb N.eqb N.eqb).
 Definition outs_eqb :=
   list_eqb (outcome_eqb (fun a b : list N => list_eqb N.eqb (sort_by (fun x => x) a) (sort_by (fun x => x) b)) cfg_err_eqb).
 
-(* [prev] = the lookups asked and answered after the last accepted document *)
-Fixpoint P_config_steps (prev : option (list (N * N) * list (outcome (list N) cfg_err)))
+Definition reg_eqb (a b : outcome (list N) cfg_err) : bool :=
+  outcome_eqb (fun a b => list_eqb N.eqb (id_set a) (id_set b)) cfg_err_eqb a b.
+
+(* [prev] = the lookups asked and answered after the last accepted document, and the relays its
+   registration round reached *)
+Fixpoint P_config_steps (prev : option (list (N * N) * list (outcome (list N) cfg_err) * outcome (list N) cfg_err))
          (steps : list (doc * list (N * N)))
-         (obs : list (outcome unit cfg_err * list (outcome (list N) cfg_err))) : bool :=
+         (obs : list (outcome unit cfg_err * list (outcome (list N) cfg_err) * outcome (list N) cfg_err)) : bool :=
   match steps, obs with
   | [], [] => true
-  | (d, lks) :: steps', (dec, outs) :: obs' =>
+  | (d, lks) :: steps', (dec, outs, reg) :: obs' =>
       negb (is_panic dec) && forallb (fun o => negb (is_panic o)) outs
+      (* the registration round that follows the refresh neither panics nor fails as a whole *)
+      && is_ok reg
       && (lenN outs =? lenN lks)
       (* unreadable / malformed / unknown-version documents are rejected *)
       && (if doc_rejectable d then is_err dec else true)
       && (match dec, prev with
           (* with no configuration at all every lookup falls back to "no relays" *)
           | Err _, None => forallb (fun o => match o with Ok [] => true | _ => false end) outs
+                           && match reg with Ok [] => true | _ => false end
           (* a rejected document leaves the previous configuration in place *)
-          | Err _, Some (lks', outs') => if lookups_eqb lks lks' then outs_eqb outs outs' else true
+          | Err _, Some (lks', outs', reg') => (if lookups_eqb lks lks' then outs_eqb outs outs' else true) && reg_eqb reg reg'
           | _, _ => true
           end)
-      && P_config_steps (match dec with Ok _ => Some (lks, outs) | _ => prev end) steps' obs'
+      && P_config_steps (match dec with Ok _ => Some (lks, outs, reg) | _ => prev end) steps' obs'
   | _, _ => false
   end.
 
